@@ -259,6 +259,7 @@ def depth1(atoms, with_func):
         out += [NAT(n, a) for a in atoms]
     out += [NAT("Mapping", a, b) for a in atoms for b in atoms]
     out += [TUP()] + [TUP(a) for a in atoms] + [TUP(a, b) for a in atoms for b in atoms]
+    out += [TUP(a, b, c) for a in atoms for b in atoms for c in atoms]      # arities 0-3 against each other
     out += [CMP("S", "B", a) for a in atoms] + [CMP("U", "F", a) for a in atoms]
     out += [CMP("S", "C", a, b) for a in atoms for b in atoms] + [CMP("U", "G", a, b) for a in atoms for b in atoms]
     out += [CMP("S", "D", a, b, c) for a in atoms for b in atoms for c in atoms]
